@@ -159,32 +159,4 @@ class RegistrySnapshot:
         return None
 
 
-def in_child(fn, *args):
-    """Run ``fn(*args)`` in a forked copy of this process and return its (picklable) result."""
-    r, w = os.pipe()
-    pid = os.fork()
-    if pid == 0:
-        code = 0
-        try:
-            os.close(r)
-            try:
-                payload = pickle.dumps(("ok", fn(*args)))
-            except BaseException as e:  # noqa: BLE001
-                import traceback
-                payload = pickle.dumps(("err", f"{type(e).__name__}: {e}\n{traceback.format_exc()}"))
-            with os.fdopen(w, "wb") as f:
-                f.write(payload)
-        except BaseException:  # noqa: BLE001
-            code = 1
-        finally:
-            os._exit(code)
-    os.close(w)
-    with os.fdopen(r, "rb") as f:
-        data = f.read()
-    os.waitpid(pid, 0)
-    if not data:
-        raise HarnessError("forked child died without a result")
-    status, val = pickle.loads(data)
-    if status == "err":
-        raise HarnessError("forked child failed: " + val)
-    return val
+from .par import in_child  # noqa: E402,F401  (kept under this name for the state explorer)
